@@ -107,6 +107,21 @@ def hasTableV (v : PView) : Bool :=
     | some i => i.isLinkTable
     | none => false
 
+/-! ### Names in the backend catalog -/
+
+inductive TName where
+  | obj (id : Nat)     -- `edgedbpub."<object type id>"`
+  | ptr (id : Nat)     -- `edgedbpub."<pointer id>"`
+deriving Repr, DecidableEq
+
+inductive CName where
+  | id
+  | dunder (n : Nat)    -- a column named by a `__…` short name (0 = `__type__`)
+  | source
+  | target
+  | col (id : Nat)      -- a column named by a pointer id
+deriving Repr, DecidableEq
+
 /-! ### Schema abstraction -/
 
 /-- pointer short names: only the class matters for storage, the number stands
@@ -122,12 +137,34 @@ inductive Kind where
   | link | prop
 deriving Repr, DecidableEq
 
+/-- link property short names.  The built-in `source` / `target` of a link are implicit in
+    the model; a USER property can only carry one of these names on an abstract link
+    without concrete descendants (the schema accepts it there), and the storage code
+    special-cases the NAME, not the identity. -/
+inductive LName where
+  | source | target
+  | other (n : Nat)
+deriving Repr, DecidableEq
+
 /-- a user link property (the built-in `source` / `target` are implicit) -/
 structure LProp where
   id : Nat
-  name : Nat
+  name : LName
   computed : Bool
 deriving Repr, DecidableEq
+
+/-- the column of a link property in the link table: `get_pointer_storage_info`, `is_lprop` arm
+    (`'source'` by name, otherwise by id) -/
+def LProp.col (lp : LProp) : CName :=
+  match lp.name with
+  | .source => .source
+  | _ => .col lp.id
+
+/-- `propname in {'source', 'target'}`: `_create_property` adds no column for these names on a link -/
+def LProp.implicitName (lp : LProp) : Bool :=
+  match lp.name with
+  | .other _ => false
+  | _ => true
 
 /-- a link or property of an object type (`src = some t`) or an abstract one (`src = none`) -/
 structure Ptr where
@@ -165,19 +202,6 @@ def Schema.nameUsed (s : Schema) (src : Option Nat) (nm : PName) : Bool :=
   s.ptrs.any (fun q => q.src == src && q.name == nm)
 
 /-! ### Catalog -/
-
-inductive TName where
-  | obj (id : Nat)     -- `edgedbpub."<object type id>"`
-  | ptr (id : Nat)     -- `edgedbpub."<pointer id>"`
-deriving Repr, DecidableEq
-
-inductive CName where
-  | id
-  | dunder (n : Nat)    -- a column named by a `__…` short name (0 = `__type__`)
-  | source
-  | target
-  | col (id : Nat)      -- a column named by a pointer id
-deriving Repr, DecidableEq
 
 structure Catalog where
   tables : List TName := []
@@ -228,7 +252,7 @@ def Ptr.srcCol (p : Ptr) : Option (TName × CName) :=
   | none => none
 
 def Ptr.lpropCols (p : Ptr) : List CName :=
-  (p.lprops.filter (fun lp => !lp.computed)).map (fun lp => .col lp.id)
+  (p.lprops.filter (fun lp => !lp.computed)).map LProp.col
 
 def ptrTables (p : Ptr) : List TName := if p.hasTable then [.ptr p.id] else []
 
@@ -291,7 +315,7 @@ inductive DDL where
   | resetExpr (i : Nat)                       -- computed → stored
   | addLProp (i : Nat) (lp : LProp)
   | dropLProp (i lp : Nat)
-  | renameLProp (i lp name : Nat)
+  | renameLProp (i lp : Nat) (name : LName)
   | setLPropComputed (i lp : Nat) (b : Bool)
 deriving Repr, DecidableEq
 
@@ -311,16 +335,17 @@ def createOps (p : Ptr) : List Op :=
 def dropPtrTable (p : Ptr) : Op := .dropTable (.ptr p.id) (p.kind == .link)
 
 /-- `_create_property` on a link source: the link table is created (unconditionally) when the
-    link did not have one, then the column is added -/
-def lpropStoreOps (p p' : Ptr) (lpid : Nat) : List Op :=
+    link did not have one, then the column is added — unless the property is NAMED
+    `source` / `target` (`skip`) -/
+def lpropStoreOps (p p' : Ptr) (col : CName) (skip : Bool) : List Op :=
   if p'.hasTable then
     (if !p.hasTable then [Op.createTable (.ptr p.id) linkTableCols false] else []) ++
-      [Op.addCol (.ptr p.id) (.col lpid) false]
+      (if skip then [] else [Op.addCol (.ptr p.id) col false])
   else []
 
 /-- `_delete_property` on a link source -/
-def lpropUnstoreOps (p p' : Ptr) (lpid : Nat) : List Op :=
-  if p'.hasTable then [Op.dropCol (.ptr p.id) (.col lpid)]
+def lpropUnstoreOps (p p' : Ptr) (col : CName) : List Op :=
+  if p'.hasTable then [Op.dropCol (.ptr p.id) col]
   else if p.hasTable then [Op.dropTable (.ptr p.id) false]
   else []
 
@@ -424,7 +449,7 @@ def emit (s : Schema) : DDL → Option (Schema × List Op)
       else
         let p' := { p with lprops := p.lprops ++ [lp] }
         some (s.updPtr i (fun q => { q with lprops := q.lprops ++ [lp] }),
-              if lp.computed then [] else lpropStoreOps p p' lp.id)
+              if lp.computed then [] else lpropStoreOps p p' lp.col lp.implicitName)
   | .dropLProp i lpid =>
     match s.findPtr i with
     | none => none
@@ -434,7 +459,7 @@ def emit (s : Schema) : DDL → Option (Schema × List Op)
       | some lp =>
         let p' := { p with lprops := p.lprops.filter (fun l => l.id ≠ lpid) }
         some (s.updPtr i (fun q => { q with lprops := q.lprops.filter (fun l => l.id ≠ lpid) }),
-              if lp.computed then [] else lpropUnstoreOps p p' lpid)
+              if lp.computed then [] else lpropUnstoreOps p p' lp.col)
   | .renameLProp i lpid name =>
     match s.findPtr i with
     | none => none
@@ -452,8 +477,8 @@ def emit (s : Schema) : DDL → Option (Schema × List Op)
         let upd := fun (q : Ptr) => q.mapLProp lpid (fun l => { l with computed := b })
         let s' := s.updPtr i upd
         if lp.computed = b then some (s', [])
-        else if b then some (s', lpropUnstoreOps p (upd p) lpid)
-        else some (s', lpropStoreOps p (upd p) lpid)
+        else if b then some (s', lpropUnstoreOps p (upd p) lp.col)
+        else some (s', lpropStoreOps p (upd p) lp.col lp.implicitName)
 
 /-! ### The machine -/
 
@@ -481,11 +506,18 @@ def run (st : State) : List DDL → Except Err State
     | .ok st' => run st' ds
     | .error e => .error e
 
-/-- The three guards under which the property holds (each excludes one behaviour
+/-- the link property `lpid` of pointer `i` (if any) is not named `source` / `target` -/
+def Schema.lpropPlain (s : Schema) (i lpid : Nat) : Bool :=
+  match s.findPtr i with
+  | some p => (p.lprops.filter (fun l => l.id == lpid)).all (fun l => !l.implicitName)
+  | none => true
+
+/-- The four guards under which the property holds (each excludes one behaviour
     of the real code that breaks it):
     * a rename keeps the column key (no plain ↔ `__…` renames);
     * a property made computed keeps its cardinality;
-    * a link made stored again has no stored link properties. -/
+    * a link made stored again has no stored link properties;
+    * no user link property is named `source` / `target` (only an abstract link can get one). -/
 def safeStep (s : Schema) : DDL → Bool
   | .renamePtr i nm =>
     match s.findPtr i with
@@ -499,6 +531,11 @@ def safeStep (s : Schema) : DDL → Bool
     match s.findPtr i with
     | some p => !p.userProps
     | none => true
+  | .addLProp _ lp => !lp.implicitName
+  | .renameLProp i lpid nm =>
+    (match nm with | .other _ => true | _ => false) && s.lpropPlain i lpid
+  | .dropLProp i lpid => s.lpropPlain i lpid
+  | .setLPropComputed i lpid _ => s.lpropPlain i lpid
   | _ => true
 
 def safeRun (st : State) : List DDL → Bool
